@@ -36,14 +36,15 @@ static std::string decode(const std::string& wire, bool permissive, std::string 
 	catch (std::exception& e) { return std::string("throw(std):") + e.what(); }
 }
 static bool has(const std::string& s, const char *tok) { return s.find(std::string("\001") + tok + "\001") != std::string::npos; }
+static size_t count(const std::string& s, const std::string& what) { size_t n = 0; for (size_t p = s.find(what); p != std::string::npos; p = s.find(what, p + 1)) ++n; return n; }
 static void strict_unknown()
 {
-	// a conforming NewOrderSingle with an undefined tag (9999) in the middle of the body
-	const std::string body("11=ord1\00121=1\00155=OC\0019999=zzz\00154=1\00160=20240101-00:00:00\00138=50\00140=2\00144=400.5\001");
+	// a NewOrderSingle with all mandatory fields, then an undefined tag (29999), then two optional fields
+	const std::string body("11=ord1\00121=1\00155=OC\00154=1\00160=20240101-00:00:00\00138=50\00140=2\00129999=zzz\00144=400.5\00158=hello\001");
 	std::string re; const std::string r = decode(frame("D", hdr + body), false, &re);
 	if (r == "accepted")
-		REPORT("{\"scenario\":\"strict, undefined tag 9999 in the body\",\"outcome\":\"accepted\",\"fields_after_it_retained\":{\"54\":%d,\"38\":%d,\"40\":%d,\"44\":%d}}",
-			(int)has(re, "54=1"), (int)has(re, "38=50"), (int)has(re, "40=2"), (int)has(re, "44=400.5"));
+		REPORT("{\"scenario\":\"strict, undefined tag 29999 after the mandatory fields\",\"outcome\":\"accepted\",\"fields_after_it_retained\":{\"44\":%d,\"58\":%d},\"undefined_field_retained\":%d}",
+			(int)(re.find("\00144=") != std::string::npos), (int)has(re, "58=hello"), (int)has(re, "29999=zzz"));
 }
 static void strict_misplaced()
 {
@@ -55,16 +56,23 @@ static void strict_misplaced()
 }
 static void permissive_unknown()
 {
-	const std::string body("11=ord1\00121=1\00155=OC\0019999=zzz\00154=1\00160=20240101-00:00:00\00138=50\00140=2\00144=400.5\001");
+	const std::string body("11=ord1\00121=1\00155=OC\00129999=zzz\00154=1\00160=20240101-00:00:00\00138=50\00140=2\00144=400.5\001");
 	const std::string wire(frame("D", hdr + body));
 	std::string re; const std::string r = decode(wire, true, &re);
-	if (r != "accepted" || !(has(re, "54=1") && has(re, "38=50") && has(re, "40=2") && has(re, "44=400.5") && has(re, "9999=zzz")))
-		REPORT("{\"scenario\":\"permissive, undefined tag 9999 in the body\",\"outcome\":\"%s\",\"retained\":{\"9999\":%d,\"54\":%d,\"38\":%d,\"40\":%d,\"44\":%d}}", r.substr(0, 60).c_str(),
-			(int)has(re, "9999=zzz"), (int)has(re, "54=1"), (int)has(re, "38=50"), (int)has(re, "40=2"), (int)has(re, "44=400.5"));
-	// reference: the same message without the unknown tag decodes to the same known fields in strict mode
-	const std::string body0("11=ord1\00121=1\00155=OC\00154=1\00160=20240101-00:00:00\00138=50\00140=2\00144=400.5\001");
-	std::string re0; const std::string r0 = decode(frame("D", hdr + body0), false, &re0);
-	if (r0 != "accepted") REPORT("{\"scenario\":\"strict reference message\",\"outcome\":\"%s\"}", r0.substr(0, 80).c_str());
+	// re-encoding: every field once, the unknown one byte for byte, one checksum field
+	if (r != "accepted" || count(re, "\00111=ord1\001") != 1 || count(re, "\00129999=zzz\001") != 1 || count(re, "\00110=") != 1 || count(re, "\00155=OC\001") != 1)
+		REPORT("{\"scenario\":\"permissive, undefined tag 29999 in the body, decoded then re-encoded\",\"outcome\":\"%s\",\"occurrences_in_the_re_encoded_text\":{\"11=ord1\":%zu,\"55=OC\":%zu,\"29999=zzz\":%zu,\"10=\":%zu},\"re_encoded_length\":%zu,\"original_length\":%zu}",
+			r.substr(0, 60).c_str(), count(re, "\00111=ord1\001"), count(re, "\00155=OC\001"), count(re, "\00129999=zzz\001"), count(re, "\00110="), re.size(), wire.size());
+}
+static void permissive_plain()
+{
+	// no unknown field at all: permissive decoding followed by re-encoding must give what strict decoding gives
+	const std::string body("11=ord1\00121=1\00155=OC\00154=1\00160=20240101-00:00:00\00138=50\00140=2\00144=400.5\001");
+	const std::string wire(frame("D", hdr + body));
+	std::string rs, rp; const std::string a = decode(wire, false, &rs), b = decode(wire, true, &rp);
+	if (a != "accepted" || b != "accepted" || rs != rp)
+		REPORT("{\"scenario\":\"conforming message, strict vs permissive re-encoding\",\"strict\":\"%s\",\"permissive\":\"%s\",\"strict_length\":%zu,\"permissive_length\":%zu,\"checksum_fields_in_permissive\":%zu}",
+			a.substr(0, 40).c_str(), b.substr(0, 40).c_str(), rs.size(), rp.size(), count(rp, "\00110="));
 }
 int main(int argc, char **argv)
 {
@@ -72,6 +80,7 @@ int main(int argc, char **argv)
 	if (which == "strict_unknown" || which == "all") strict_unknown();
 	if (which == "strict_misplaced" || which == "all") strict_misplaced();
 	if (which == "permissive_unknown" || which == "all") permissive_unknown();
+	if (which == "permissive_plain" || which == "all") permissive_plain();
 	printf("{\"search_done\":true,\"class\":\"%s\",\"mismatches\":%d}\n", which.c_str(), bad);
 	fflush(stdout);
 	_exit(bad ? 1 : 0);
